@@ -1,12 +1,136 @@
 import D2V.Model.Edit
-/-! C37 — editing API (placeholder lemmas; replaced by the real development) -/
+import D2V.Proofs.EditPaths
+/-!
+  C37 — Create and Set change exactly what they name (abstract semantics `Edit.Spec`).
+  The driver evaluates `createClauses` / `setClauses` on the real before/after pair (elements matched by ID, because
+  no ID may change) and checks the refinement `after = Spec.createObj / createEdge / set… before`.
+-/
 namespace D2V.Edit
 
-theorem C37_firstFailing_none_iff (cs : List Clause) : firstFailing cs = none ↔ allHold cs = true := by
-  induction cs with
-  | nil => simp [firstFailing, allHold]
-  | cons c r ih =>
-    unfold firstFailing
-    cases h : c.holds <;> simp [allHold, h] at * <;> exact ih
+theorem hasObj_append_right (d : Diagram) (extra : List Obj) (p : Path) (o : Obj) (ho : o ∈ extra)
+    (hp : samePath o.path p = true) : ({ d with objs := d.objs ++ extra } : Diagram).hasObj p = true := by
+  simp only [Diagram.hasObj, List.any_append, Bool.or_eq_true, List.any_eq_true]
+  exact Or.inr ⟨o, ho, hp⟩
+
+/-- **Create adds the object (which did not exist) plus the missing containers on its path, nothing else** -/
+theorem create_adds_exactly (d d' : Diagram) (p : Path) (h : Spec.createObj d p = some d') :
+    d'.edges = d.edges ∧
+    (∃ new : List Obj, d'.objs = d.objs ++ new ∧
+        ∀ o ∈ new, isPre o.path p = true ∧ d.hasObj o.path = false ∧ o = Spec.defaultObj o.path) ∧
+    d.hasObj p = false ∧ d'.hasObj p = true := by
+  unfold Spec.createObj at h
+  split at h
+  · cases h
+  · rename_i hc
+    simp only [Bool.or_eq_true, not_or, Bool.not_eq_true] at hc
+    cases h
+    refine ⟨rfl, ⟨(Spec.missingOn d p).map Spec.defaultObj, rfl, ?_⟩, hc.2, ?_⟩
+    · intro o ho
+      rcases List.mem_map.mp ho with ⟨q, hq, rfl⟩
+      simp only [Spec.missingOn, List.mem_filter, List.mem_map] at hq
+      rcases hq with ⟨⟨n, _, rfl⟩, hnot⟩
+      exact ⟨by simpa [Spec.defaultObj] using isPre_take p n, by simpa [Spec.defaultObj] using hnot, rfl⟩
+    · -- p itself is among the missing paths
+      have hne : p.length ≠ 0 := by
+        intro h0
+        have : p = [] := List.eq_nil_of_length_eq_zero h0
+        simp [this] at hc
+      have hmem : p ∈ Spec.missingOn d p := by
+        simp only [Spec.missingOn, List.mem_filter, List.mem_map, List.mem_range]
+        exact ⟨⟨p.length, ⟨by omega, by simpa using hne⟩, by simp⟩, by simp [hc.2]⟩
+      exact hasObj_append_right d _ p (Spec.defaultObj p) (List.mem_map.mpr ⟨p, hmem, rfl⟩)
+        (by simp [Spec.defaultObj, samePath_refl])
+
+/-! attributes as association lists -/
+
+theorem attrOf_set_same (a : Attrs) (k : String) (v : Option String) : attrOf (Spec.setAttrs a k v) k = v := by
+  unfold attrOf Spec.setAttrs
+  have hnone : (a.filter fun kv => kv.1 != k).find? (fun kv => kv.1 == k) = none := by
+    rw [List.find?_eq_none]
+    intro kv hkv
+    have := (List.mem_filter.mp hkv).2
+    simpa using this
+  cases v with
+  | none => simp [hnone]
+  | some x => simp [List.find?_append, hnone]
+
+theorem attrOf_set_other (a : Attrs) (k k' : String) (v : Option String) (hne : k' ≠ k) :
+    attrOf (Spec.setAttrs a k v) k' = attrOf a k' := by
+  unfold attrOf Spec.setAttrs
+  have hfilt : (a.filter fun kv => kv.1 != k).find? (fun kv => kv.1 == k') = a.find? (fun kv => kv.1 == k') := by
+    rw [List.find?_filter]
+    congr 1
+    funext kv
+    by_cases h : kv.1 = k'
+    · subst h; simp [hne]
+    · simp [h]
+  cases v with
+  | none => simp [hfilt]
+  | some x =>
+    have : ((k, x).1 == k') = false := by simpa using (fun h : k = k' => hne h.symm)
+    simp [List.find?_append, hfilt, this]
+
+/-- **Set makes the attribute equal to the value, changes no other attribute, no other element** -/
+theorem set_changes_exactly (d : Diagram) (p : Path) (k : String) (v : Option String) :
+    (Spec.setObjAttr d p k v).edges = d.edges ∧
+    (Spec.setObjAttr d p k v).objs.length = d.objs.length ∧
+    (∀ o ∈ d.objs, samePath o.path p = false → o ∈ (Spec.setObjAttr d p k v).objs) ∧
+    (∀ o' ∈ (Spec.setObjAttr d p k v).objs, ∃ o ∈ d.objs, o'.path = o.path ∧ o'.label = o.label ∧
+        (samePath o.path p = false → o' = o) ∧
+        (samePath o.path p = true → attrOf o'.attrs k = v ∧ ∀ k', k' ≠ k → attrOf o'.attrs k' = attrOf o.attrs k')) := by
+  refine ⟨rfl, by simp [Spec.setObjAttr], ?_, ?_⟩
+  · intro o ho hs
+    simp only [Spec.setObjAttr, List.mem_map]
+    exact ⟨o, ho, by simp [hs]⟩
+  · intro o' ho'
+    simp only [Spec.setObjAttr, List.mem_map] at ho'
+    rcases ho' with ⟨o, ho, rfl⟩
+    refine ⟨o, ho, ?_, ?_, ?_, ?_⟩
+    · by_cases hs : samePath o.path p = true <;> simp [hs]
+    · by_cases hs : samePath o.path p = true <;> simp [hs]
+    · intro hs; simp [hs]
+    · intro hs
+      simp only [hs, if_true]
+      exact ⟨attrOf_set_same _ _ _, fun k' hk' => attrOf_set_other _ _ _ _ hk'⟩
+
+/-- the same for the label -/
+theorem set_label_changes_exactly (d : Diagram) (p : Path) (v : String) :
+    (Spec.setObjLabel d p v).edges = d.edges ∧
+    (∀ o ∈ d.objs, samePath o.path p = false → o ∈ (Spec.setObjLabel d p v).objs) ∧
+    (∀ o' ∈ (Spec.setObjLabel d p v).objs, ∃ o ∈ d.objs, o'.path = o.path ∧ o'.attrs = o.attrs ∧
+        (samePath o.path p = false → o' = o) ∧ (samePath o.path p = true → o'.label = v)) := by
+  refine ⟨rfl, ?_, ?_⟩
+  · intro o ho hs
+    simp only [Spec.setObjLabel, List.mem_map]
+    exact ⟨o, ho, by simp [hs]⟩
+  · intro o' ho'
+    simp only [Spec.setObjLabel, List.mem_map] at ho'
+    rcases ho' with ⟨o, ho, rfl⟩
+    refine ⟨o, ho, ?_, ?_, ?_, ?_⟩
+    · by_cases hs : samePath o.path p = true <;> simp [hs]
+    · by_cases hs : samePath o.path p = true <;> simp [hs]
+    · intro hs; simp [hs]
+    · intro hs; simp [hs]
+
+/-! the driver's clauses hold of the abstract semantics on witnesses -/
+
+def exC : Diagram :=
+  { objs := [⟨["a"], "L1", [("shape", "rectangle")]⟩, ⟨["b"], "L2", [("shape", "rectangle")]⟩],
+    edges := [⟨["a"], ["b"], false, true, 0, "E1", []⟩] }
+
+example : (Spec.createObj exC ["a", "x", "y"]).map (fun d' => allHold (createClauses exC d' (.obj ["a", "x", "y"]))) = some true := by decide
+example : (Spec.createEdge exC ["a"] ["b"] false true).map (fun d' => allHold (createClauses exC d' (.edge ["a"] ["b"] false true 1))) = some true := by decide
+example : allHold (setClauses exC (Spec.setObjAttr exC ["a"] "style.fill" (some "red")) (.obj ["a"]) "style.fill" (some "red") []) = true := by decide
+example : allHold (setClauses exC (Spec.setEdgeLabel exC ["a"] ["b"] false true 0 "hello") (.edge ["a"] ["b"] false true 0) "label" (some "hello") []) = true := by decide
+
+/-- the defect class C37-create-parallel-edge-renumbers-existing on its witness: the existing connection E4 ends up
+    with index 1 and the new, unlabeled one takes index 0 -/
+theorem C37_cx_create_renumbers_existing :
+    firstFailing (createClauses
+      ⟨[⟨["z"], "L1", []⟩, ⟨["z", "z"], "L2", []⟩, ⟨["z", "z", "y"], "L3", []⟩], [⟨["z", "z", "y"], ["z", "z"], false, false, 0, "E4", []⟩]⟩
+      ⟨[⟨["z"], "L1", []⟩, ⟨["z", "z"], "L2", []⟩, ⟨["z", "z", "y"], "L3", []⟩],
+       [⟨["z", "z", "y"], ["z", "z"], false, false, 0, "", []⟩, ⟨["z", "z", "y"], ["z", "z"], false, false, 1, "E4", []⟩]⟩
+      (.edge ["z", "z", "y"] ["z", "z"] false false 1)) = some "create-changed-existing-edge" := by
+  decide
 
 end D2V.Edit
